@@ -14,6 +14,15 @@ impl PartialOrd for Duration {
         if self.nanos < other.nanos { Some(CmpOrdering::Less) } else if self.nanos == other.nanos { Some(CmpOrdering::Equal) } else { Some(CmpOrdering::Greater) }
     }
 }
+impl vstd::std_specs::ops::AddSpecImpl<Duration> for Duration {
+    open spec fn obeys_add_spec() -> bool { true }
+    open spec fn add_req(self, rhs: Duration) -> bool { self.nanos + rhs.nanos <= u128::MAX }
+    open spec fn add_spec(self, rhs: Duration) -> Duration { Duration { nanos: (self.nanos + rhs.nanos) as u128 } }
+}
+impl core::ops::Add<Duration> for Duration {
+    type Output = Duration;
+    fn add(self, rhs: Duration) -> (r: Duration) { Duration { nanos: self.nanos + rhs.nanos } }
+}
 impl Duration {
     pub const ZERO: Duration = Duration { nanos: 0 };
     pub fn saturating_sub(self, rhs: Duration) -> (r: Duration)
@@ -40,6 +49,7 @@ impl Instant {
                 self.t + d.nanos > u128::MAX ==> r is None
     { match self.t.checked_add(d.nanos) { Some(t) => Some(Instant { t }), None => None } }
 }
+pub fn vx_copied<T: Copy>(o: Option<&T>) -> (r: Option<T>) ensures o is None ==> r is None, o is Some ==> r == Some(*o->0) { match o { Some(x) => Some(*x), None => None } }
 pub struct Clock { pub now: Ghost<nat> }
 impl Clock {
     #[verifier::external_body]
